@@ -206,8 +206,6 @@ class Run(object):
         mutable = bool(ns.is_mutable)
         allowed = ()
         expect = None           # expected member list after the op (None = computed below)
-        ret_check = None
-        new_label = None        # a new member with this label is expected at the end
         try:
             if name == "add":
                 t = Taxon(op[1])
